@@ -13,7 +13,7 @@
  * trigger_set's close and open / opendir and readdir of todo / select) the schedule decides.
  *
  * output per run: CASE ninj=<n> sched=<choices>, T lines (trigger-related calls only, with the clock),
- *                 X lines, END
+ *                 X lines (among them one `X snap ...` per select of the daemon, see c16_snap.h), END
  */
 #define _GNU_SOURCE
 #include "sim.h"
@@ -25,6 +25,7 @@ SIM_INSTANCE(qs)
 SIM_INSTANCE(qc)
 SIM_INSTANCE(qa)
 SIM_INSTANCE(qb)
+#include "c16_snap.h"
 
 #define QROOT "/var/qmail/queue"
 static int ninj;
@@ -80,6 +81,7 @@ static void answer_commands(void) {          /* every delivery succeeds at once 
 }
 static int daemon_select(simproc *p, int nfds, fd_set *r, fd_set *w, struct timeval *tv) {
   if (p->idx != 0) return 0;
+  c16_snapshot(p, nfds, r, w, tv);      /* the select preparation's inputs and outputs (SelPrep leg) */
   answer_commands();
   for (int pass = 0; pass < 2; pass++) {
     int n = 0; fd_set ro, wo; FD_ZERO(&ro); FD_ZERO(&wo);
